@@ -150,6 +150,29 @@ Theorem C20_silent_connection_db0 : forall n c p, Forall (fun x => ss_conn x <> 
 Proof. intros n c p. apply silent_connection_db0. Qed.
 Print Assumptions C20_silent_connection_db0.
 
+(* ------------------------------------------------------------------ C20_select_takes_effect_for_next_command *)
+(* A connection's commands take effect in the order sent, each with the selection current at that
+   point.  Once SELECT i (0 <= i < n) of connection c has been answered OK, c has i selected, keeps
+   it whatever other connections do in between, and the very next data command of c -- however soon
+   it was sent, e.g. pipelined in the same packet -- is executed on database i: its reply and the
+   new contents of database i are those of [exec] on database i.  (Pipelining is not a notion of the
+   model: a connection is its sequence of commands.) *)
+Theorem C20_select_takes_effect_for_next_command :
+  forall s0 c now nowms sel arg hint i q x d,
+  lower sel = B "select" -> atoi64 arg = Some (Z.of_nat i) -> (i < List.length (sdbs s0))%nat ->
+  Forall (fun y => ss_conn y <> c) q ->
+  ss_conn x = c -> is_select (ss_args x) = false -> ss_args x <> [] ->
+  let s1 := snd (srv_exec s0 c now nowms [sel; arg] hint) in
+  let s2 := snd (srv_run s1 q) in
+  fst (srv_exec s0 c now nowms [sel; arg] hint) = rOK /\
+  sel_lookup c (ssel s2) = i /\
+  (nth_error (sdbs s2) i = Some d ->
+   let res := srv_exec s2 c (ss_now x) (ss_nowms x) (ss_args x) (ss_hint x) in
+   fst res = fst (exec d (ss_now x) (ss_nowms x) (ss_args x) (ss_hint x)) /\
+   nth_error (sdbs (snd res)) i = Some (snd (exec d (ss_now x) (ss_nowms x) (ss_args x) (ss_hint x)))).
+Proof. exact select_takes_effect_for_next_command. Qed.
+Print Assumptions C20_select_takes_effect_for_next_command.
+
 (* ------------------------------------------------------------------ C20_cluster_single_database *)
 (* Cluster mode.  There every command, SELECT included, is executed by handleClusterCommits on the
    ONE Manager all connections share, so the selection is one shared field: the program is run as
@@ -228,3 +251,12 @@ Example ex_shared_selection_needs_one_database :
   fst (srv_run (srv_init 1) (shared_selection p)) = [rOK; err_other; RBulk (B "byB")] /\
   srv_wf 1 (srv_init 1).
 Proof. vm_compute. repeat split; try reflexivity; intros; lia. Qed.
+
+(* what a pipelining client must get: BLPOP nolist 1 | SELECT 1 | SET k v1 | GET whoami on one
+   connection -- the SET lands in database 1 *)
+Example ex_pipelined_select :
+  let s := snd (srv_run (srv_init 2) [ss 9 [B "SET"; B "whoami"; B "0"]; ss 9 [B "SELECT"; B "1"]; ss 9 [B "SET"; B "whoami"; B "1"]]) in
+  fst (srv_run s [ss 1 [B "BLPOP"; B "nolist"; B "1"]; ss 1 [B "SELECT"; B "1"]; ss 1 [B "SET"; B "k"; B "v1"];
+                  ss 1 [B "GET"; B "whoami"]; ss 2 [B "GET"; B "k"]; ss 9 [B "GET"; B "k"]])
+  = [RNil; rOK; rOK; RBulk (B "1"); RNil; RBulk (B "v1")].
+Proof. vm_compute. reflexivity. Qed.
